@@ -510,7 +510,9 @@ class C12(runner.Check):
 		tag = "c12_%d_%d" % (os.getpid(), case.get("seed", 0))
 		fa = os.path.join(scratch, tag + ".fa")
 		mm = os.path.join(scratch, tag + ".meme")
-		names = ["chr%d" % i for i in range(len(world["seqs"]))]
+		pool = ["chr10", "chr2", "chr1", "chrX", "seqB", "seqA", "chr21", "chr3"]
+		names = pool[:len(world["seqs"])] if case["fasta"].get("unsorted_names", True) \
+			else ["chr%d" % i for i in range(len(world["seqs"]))]
 		seqs_file = [s.lower() if (case["fasta"]["lower"] and i % 2 == 0) else s
 			for i, s in enumerate(world["seqs"])]
 		genome.write_fasta(fa, list(zip(names, seqs_file)), width=case["fasta"]["width"])
